@@ -42,11 +42,12 @@ var c03TypedVals = map[string]any{
 	"named1": vNamedInt(1), "str1": "1", "done": "done", "todo": "todo", "true": true, "false": false, "nil": nil, "missing": nil,
 }
 
-var c03TrueExprs = []string{"t", "!f", "n == 1", "s == 'x'", "t && t"}
-var c03FalseExprs = []string{"f", "!t", "n == 2", "zz", "n > 5", "f || zz"}
+// (the first and fourth of each - members are given expressions by their position -: a string literal that contains the other kind of quote, then strict operators)
+var c03TrueExprs = []string{"qs === &quot;it's&quot; &amp;&amp; n === 1", "t", "!f", "qd !== 'say &quot;hi&quot;!' || n === 1", "n == 1", "s == 'x'", "t && t"}
+var c03FalseExprs = []string{"qs === &quot;it's&quot; &amp;&amp; n !== 1", "f", "!t", "qs !== &quot;it's&quot; || n === 2", "n == 2", "zz", "n > 5", "f || zz"}
 
 func c03Data() map[string]any {
-	return map[string]any{"t": true, "f": false, "n": 1, "s": "x", "two": []int{0, 1}, "none": []int{}, "one": []int{7}}
+	return map[string]any{"qs": "it's", "qd": `say "hi"`, "t": true, "f": false, "n": 1, "s": "x", "two": []int{0, 1}, "none": []int{}, "one": []int{7}}
 }
 
 // c03Build returns the template and the expected id list ("" second result = unconstrained).
